@@ -285,6 +285,58 @@ def script_contact(routing, n, c):
     n.v_recent = is_recent(c)
 
 
+class ConstRandom(FakeRandom):
+    """every draw answers from the same r (within the asked range): the targets of one refresh round then do not depend
+    on the order in which the code visits the buckets"""
+
+    def _take(self, bound: int) -> int:
+        if bound <= 0:
+            raise ValueError("empty range")
+        v = self.r % bound
+        self.returned.append(v)
+        return v
+
+
+def run_maintenance(routing, tables: dict, fail_lookups=frozenset()):
+    """one round of the real DHTCommunity.node_maintenance over the given routing tables ({address class: RoutingTable});
+    returns the looked-up targets in call order.  `fail_lookups`: indices of find_values calls that raise DHTError."""
+    import asyncio
+    from types import SimpleNamespace
+    from ipv8.dht import DHTError, community
+    install_clock(community)
+    targets = []
+
+    async def find_values(target, *args, **kwargs):
+        targets.append(target)
+        if len(targets) - 1 in fail_lookups:
+            raise DHTError("scripted lookup failure")
+        return []
+
+    overlay = SimpleNamespace(routing_tables=tables, find_values=find_values)
+    loop = asyncio.new_event_loop()
+    try:
+        loop.run_until_complete(community.DHTCommunity.node_maintenance(overlay))
+    finally:
+        loop.close()
+    return targets
+
+
+def judge_refresh(stale_keys, all_keys, targets):
+    """independent of the code: every stale prefix must get exactly one lookup whose target starts with that prefix, and no
+    other lookups happen.  `all_keys`: prefix-free bucket keys.  Returns a (kind, text) or None."""
+    owners = []
+    for t in targets:
+        tb = bits(int.from_bytes(t, "big"), 8 * len(t)) if len(t) == W // 8 else None
+        own = [k for k in all_keys if tb is not None and tb.startswith(k)]
+        owners.append(own[0] if own else None)
+    if sorted("?" if o is None else o for o in owners) != sorted(stale_keys):
+        missing = sorted(set(stale_keys) - {o for o in owners if o is not None})
+        return ("refresh-target-outside-bucket",
+                f"stale buckets {sorted(stale_keys)} were refreshed with lookups for ids owned by buckets {owners}"
+                + (f"; no lookup inside {missing}" if missing else ""))
+    return None
+
+
 class Impl:
     """the real RoutingTable driven op by op; produces the canonical reply for every op and evaluates the oracle"""
 
@@ -387,7 +439,7 @@ class Impl:
     SITE = {"add": "RoutingTable.add", "set": "RoutingTable.get", "rmbad": "RoutingTable.remove_bad_nodes",
             "closest": "RoutingTable.closest_nodes", "get": "RoutingTable.get", "bucket": "RoutingTable.get_bucket",
             "dump": "RoutingTable.trie", "genid": "Bucket.generate_id", "readd": "RoutingTable.add",
-            "status": "Node.status"}
+            "status": "Node.status", "refresh": "DHTCommunity.node_maintenance"}
 
     def _bucket_reply(self, ident: int) -> str:
         b = self.rt.get_bucket(ident.to_bytes(W // 8, "big"))
@@ -405,6 +457,8 @@ class Impl:
             return f"rt.readd {op[1]}"
         if kind == "status":
             return f"rt.status {bits(op[1])}"
+        if kind == "refresh":
+            return f"rt.refresh {op[2]} none"
         if kind == "closest":
             return f"rt.closest {bits(op[1])} {'default' if op[2] is None else op[2]} {bits(op[3]) if op[3] is not None else 'none'}"
         if kind in ("get", "bucket"):
@@ -600,6 +654,34 @@ class Impl:
                               for n in sorted(b.nodes.values(), key=lambda n: n.tag))
                 items.append(f"{pb(k)}:{pb(b.prefix_id)}/{getattr(b, 'max_size', '?')}={ns}")
             return "rt.dump", "|".join(sorted(items))
+        if kind == "refresh":
+            # one round of the periodic refresh: `mask` picks which buckets are stale (unchanged for an hour), all others
+            # were just changed; every random draw of the round answers from r
+            _, mask, r, fail_first = op
+            kb = self.keys()
+            stale = [k for j, (k, b) in enumerate(kb) if (mask >> (j % 64)) & 1]
+            for k, b in kb:
+                b.last_changed = VNOW - 3600 if k in stale else VNOW - 1
+            with scripted_random(self.routing, ConstRandom(r)):
+                targets = run_maintenance(self.routing, {"v4": rt}, frozenset({0}) if fail_first else frozenset())
+            verdict = judge_refresh(stale, [k for k, _ in kb], targets)
+            if verdict is not None:
+                self._fail("DHTCommunity.node_maintenance:" + verdict[0], f"op {idx}: {verdict[1]}")
+            unstamped = [k for k, b in kb if k in stale and b.last_changed != VNOW]
+            touched = [k for k, b in kb if k not in stale and b.last_changed != VNOW - 1]
+            if unstamped or touched:
+                self._fail("DHTCommunity.node_maintenance:wrong-buckets-stamped",
+                           f"op {idx}: stale buckets {stale}: not stamped {unstamped}, stamped although fresh {touched}")
+            self.stats["refresh:stale-buckets=%s-of-%s" % (min(len(stale), 3) if len(stale) < 3 else "3+", "1" if len(kb) == 1 else "many")] += 1
+            owners = {}
+            for t in targets:
+                tb = bits(int.from_bytes(t, "big"), 8 * len(t))
+                own = [k for k in stale if tb.startswith(k)]
+                owners.setdefault(own[0] if own else "?", []).append(tb)
+            # reply: refreshed key > target, by key (targets of one round use the same r, so the visiting order is immaterial)
+            items = sorted(f"{pb(k)}>{v}" for k, vs in owners.items() for v in vs) if "?" not in owners else \
+                sorted(f"?>{bits(int.from_bytes(t, 'big'), 8 * len(t))}" for t in targets)
+            return f"rt.refresh {r} {','.join(pb(k) for k in stale) if stale else 'none'}", "|".join(items)
         if kind == "genid":
             _, which, r = op
             kb = self.keys()
@@ -813,6 +895,13 @@ def gen_scenario(ctx: Ctx, rng, n_ops: int, profile: str):
         elif x < 0.97:
             ident, _ = gen_id(rng, me, state)
             do(("bucket", ident))
+        elif x < 0.975:
+            cls = rng.choice(["one", "one", "few", "all", "random", "none"])
+            nb = max(1, len(im.keys()))
+            mask = {"one": 1 << rng.randrange(min(nb, 64)), "few": (1 << rng.randrange(min(nb, 64))) | (1 << rng.randrange(min(nb, 64))),
+                    "all": (1 << 64) - 1, "random": rng.getrandbits(64), "none": 0}[cls]
+            do(("refresh", mask, rng.getrandbits(rng.choice([8, 64, 160, 200])), rng.random() < 0.2))
+            ctx.count("refresh-class:" + cls)
         elif x < 0.985:
             do(("genid", rng.randrange(0, 1000), rng.getrandbits(rng.choice([1, 8, 64, 159, 160, 161, 200]))))
         else:
@@ -826,6 +915,10 @@ def gen_scenario(ctx: Ctx, rng, n_ops: int, profile: str):
             for k in (1, 2, 7, 8, 9, 20):
                 t, _ = gen_id(rng, me, state)
                 do(("closest", t, k, None))
+            nb = len(im.keys())
+            for j in sorted({0, nb // 2, nb - 1}):
+                do(("refresh", 1 << (j % 64), rng.getrandbits(160), False))
+            do(("refresh", (1 << 64) - 1, rng.getrandbits(160), False))
             # queries that start at the deepest bucket (target = own id and its neighbours) and have to climb
             for k, t in ((20, me), (20, me ^ 1), (12, me ^ 3), (len(im.all_nodes()) or 1, me ^ 5)):
                 do(("closest", t, k, None))
@@ -1359,6 +1452,66 @@ def deep_walk_scenarios(ctx: Ctx, n: int, use_model=True):
             compare(ctx, lines, replies, {"kind": "routing", "me": me, "m": None, "ops": [list(o) for o in ops]})
 
 
+def build_two_tables(me, idlists, stale_draw):
+    import random as _r
+    pick = _r.Random(stale_draw)
+    ims = [Impl(me, None), Impl(me, None)]
+    stale = set()
+    for im, ids in zip(ims, idlists):
+        for i, ident in enumerate(ids):
+            im.apply(("add", ident, 0, 1000, 1 + i, 1), i)
+        for k, b in im.keys():
+            if pick.random() < 0.4:
+                b.last_changed = VNOW - 3600
+                stale.add(k)
+            else:
+                b.last_changed = VNOW - 1
+    return ims, stale
+
+
+def refresh_two_tables(ctx: Ctx, n: int):
+    """node_maintenance over TWO routing tables (as with IPv4 + IPv6): buckets are grouped by prefix, one lookup per stale
+    prefix.  Oracle only: the lookups can be matched one-to-one to the stale prefixes, each target inside its prefix."""
+    from ipv8.dht import routing
+    rng = ctx.rng
+    for s in range(n):
+        me = rng.getrandbits(W)
+        idlists = [[rng.getrandbits(W) if rng.random() < 0.5 else (me ^ (1 << rng.randrange(W - 12, W))) ^ rng.getrandbits(100)
+                    for i in range(rng.choice([3, 12, 30, 60]))] for _ in range(2)]
+        stale_draw = rng.getrandbits(64)
+        seed = rng.getrandbits(32)
+        rec = {"kind": "refresh2", "me": me, "ids": idlists, "stale_draw": stale_draw, "seed": seed}
+        ims, stale = build_two_tables(me, idlists, stale_draw)
+        seed_real_random(seed)
+        try:
+            targets = run_maintenance(routing, {"v4": ims[0].rt, "v6": ims[1].rt})
+        except Exception as e:
+            if raised_by_harness(e):
+                raise
+            ctx.oracle_fail("DHTCommunity.node_maintenance:raises", f"two tables: {type(e).__name__}: {e}", rec)
+            continue
+        tbs = [bits(int.from_bytes(t, "big"), 8 * len(t)) for t in targets]
+        prefixes = sorted(stale, key=len, reverse=True)
+        match = {}
+
+        def assign(pi, seen):
+            for ti, tb in enumerate(tbs):
+                if tb.startswith(prefixes[pi]) and len(tb) == W and ti not in seen:
+                    seen.add(ti)
+                    if ti not in match or assign(match[ti], seen):
+                        match[ti] = pi
+                        return True
+            return False
+        ok = len(tbs) == len(prefixes) and all(assign(pi, set()) for pi in range(len(prefixes)))
+        ctx.count("refresh-two-tables:stale-prefixes=%s" % (len(prefixes) if len(prefixes) < 5 else "5+"))
+        case(ctx, ("refresh2", me, seed), nontrivial=len(prefixes) > 1, n=len(targets) + 1)
+        if not ok:
+            ctx.oracle_fail("DHTCommunity.node_maintenance:refresh-target-outside-bucket",
+                            f"two routing tables, stale prefixes {sorted(stale)}: the {len(tbs)} lookups {[t[:12] + '..' for t in tbs]} cannot be "
+                            f"matched one-to-one to the stale prefixes (each target inside its prefix)",
+                            rec)
+
+
 def real_node_ids(ctx: Ctx):
     """the hypothesis of every theorem - identifiers have the table's width - checked for the code's own identifier function:
     real Node objects (no scripted id; IPv4 and IPv6 addresses) have W/8-byte ids and a table filled with them stays valid"""
@@ -1404,6 +1557,7 @@ def run(ctx: Ctx):
         small_scope(ctx, 2, 5, 1, [0, 3 << (W - 2), (1 << W) - 1])
         small_scope(ctx, 4, 3, 3, [0, 9 << (W - 4)])
     real_node_ids(ctx)
+    refresh_two_tables(ctx, ctx.scale(6, 60))
     deep_walk_scenarios(ctx, ctx.scale(2, 30))
     routing_scenarios(ctx, ctx.scale(24, 300), [60, 150, 150, 300, 400, 700])
     routing_scenarios(ctx, ctx.scale(1, 10), [2000, 2600])
@@ -1424,6 +1578,7 @@ def search(ctx: Ctx, reason: str):
     if ctx.failures:
         return
     real_node_ids(ctx)
+    refresh_two_tables(ctx, 10)
     deep_walk_scenarios(ctx, 4, use_model=False)
     if ctx.failures:
         return
@@ -1444,6 +1599,19 @@ def replay(ctx: Ctx, rec: dict):
             print("replay: property holds on this input")
         case(ctx, ("replay",), True)
         compare(ctx, lines, replies, {"kind": "routing", "me": r["me"], "m": r.get("m")})
+    elif r.get("kind") == "refresh2":
+        from ipv8.dht import routing
+        ims, stale = build_two_tables(r["me"], r["ids"], r["stale_draw"])
+        seed_real_random(r["seed"])
+        targets = run_maintenance(routing, {"v4": ims[0].rt, "v6": ims[1].rt})
+        tbs = [bits(int.from_bytes(t, "big"), 8 * len(t)) for t in targets]
+        print(f"replay: stale prefixes {sorted(stale)}; lookups {[t[:16] + '..' for t in tbs]}")
+        # each stale prefix needs its own lookup: count per prefix the targets inside it (sufficient test for the replay print)
+        bad = [p for p in stale if not any(t.startswith(p) for t in tbs)] or (["count"] if len(tbs) != len(stale) else [])
+        print("replay: property", f"FAILS: no lookup inside {bad}" if bad else "holds on this input")
+        if bad:
+            ctx.oracle_fail("DHTCommunity.node_maintenance:refresh-target-outside-bucket", f"no lookup inside {bad}", r)
+        case(ctx, ("replay",), True)
     elif r.get("kind") == "status":
         from ipv8.dht import routing
         install_clock(routing)
